@@ -1,2 +1,70 @@
 (* Property C05 — serialization and persistence round trip.  Statements only; proofs in Proofs/. *)
-From PG Require Import Common.Tactics Model.Json Model.MemFS Model.MemSeq.
+From PG Require Import Common.Tactics Model.Json Model.MemFS Model.MemSeq Proofs.JsonProofs Proofs.JsonStrProofs.
+
+(* Object form: pg.from_json (pg.to_json v) is v, for every value outside the reserved encodings. *)
+Theorem C05_json_roundtrip : forall q ct v, no_quirks q -> ct_ok ct = true -> ser_ok ct v = true ->
+  from_json q ct (to_json v) = Ok v.
+Proof. exact json_roundtrip_full. Qed.
+Print Assumptions C05_json_roundtrip.
+
+(* With the open finding (the empty tuple) present in the implementation: every value without (). *)
+Theorem C05_json_roundtrip_partial : forall q ct v, ct_ok ct = true -> ser_ok ct v = true -> no_empty_tuple v = true ->
+  from_json q ct (to_json v) = Ok v.
+Proof. exact json_roundtrip_avoiding. Qed.
+Print Assumptions C05_json_roundtrip_partial.
+
+Theorem C05_empty_tuple_refuted : forall q ct, q_empty_tuple q = true -> from_json q ct (to_json (PTuple [])) = Err EValue.
+Proof. exact empty_tuple_rejected. Qed.
+Print Assumptions C05_empty_tuple_refuted.
+
+(* String form: pg.from_json_str (pg.to_json_str v) is v; json.dumps / json.loads are parameters. *)
+Theorem C05_str_roundtrip : forall (text : Type) (dumps : jv -> text) (loads : text -> option jv),
+  (forall j, sj_ok j = true -> loads (dumps j) = Some j) ->
+  forall q ct v, no_quirks q -> ct_ok ct = true -> ser_ok ct v = true -> str_ok v = true ->
+  of_str text loads q ct (to_str text dumps v) = Ok v.
+Proof. exact str_roundtrip_full. Qed.
+Print Assumptions C05_str_roundtrip.
+
+Theorem C05_str_roundtrip_partial : forall (text : Type) (dumps : jv -> text) (loads : text -> option jv),
+  (forall j, sj_ok j = true -> loads (dumps j) = Some j) ->
+  forall q ct v, ct_ok ct = true -> ser_ok ct v = true -> str_ok v = true -> no_empty_tuple v = true ->
+  of_str text loads q ct (to_str text dumps v) = Ok v.
+Proof. exact str_roundtrip_avoiding. Qed.
+Print Assumptions C05_str_roundtrip_partial.
+
+(* The int-key encoding alone (the tree handed to json.dumps, decoded again): no assumption on json. *)
+Theorem C05_int_key_encoding_roundtrip : forall q ct v, no_quirks q -> ct_ok ct = true -> ser_ok ct v = true -> str_ok v = true ->
+  of_sj q ct (to_sj v) = Ok v.
+Proof. exact sj_roundtrip_full. Qed.
+Print Assumptions C05_int_key_encoding_roundtrip.
+
+Theorem C05_to_json_injective : forall ct v w, ct_ok ct = true -> ser_ok ct v = true -> ser_ok ct w = true ->
+  to_json v = to_json w -> v = w.
+Proof. exact to_json_injective. Qed.
+Print Assumptions C05_to_json_injective.
+
+(* Each exclusion of the domain is a reserved encoding: outside it the round trip yields something else. *)
+Theorem C05_marker_list_refuted :
+  ser_ok ex_ct (PList [PStr s_marker; PInt 1]) = false /\
+  from_json q_none ex_ct (to_json (PList [PStr s_marker; PInt 1])) = Ok (PTuple [PInt 1]).
+Proof. exact marker_list_refuted. Qed.
+Print Assumptions C05_marker_list_refuted.
+
+Theorem C05_type_key_refuted :
+  ser_ok ex_ct (PDict [(KS s_type, PStr [120%N])]) = false /\
+  from_json q_none ex_ct (to_json (PDict [(KS s_type, PStr [120%N])])) = Err EType.
+Proof. exact type_key_refuted. Qed.
+Print Assumptions C05_type_key_refuted.
+
+Theorem C05_int_prefix_key_refuted :
+  str_ok (PDict [(KS (s_nprefix ++ [49%N]), PNone)]) = false /\
+  of_sj q_none ex_ct (to_sj (PDict [(KS (s_nprefix ++ [49%N]), PNone)])) = Ok (PDict [(KI 1, PNone)]).
+Proof. exact int_prefix_key_refuted. Qed.
+Print Assumptions C05_int_prefix_key_refuted.
+
+Theorem C05_bool_key_refuted :
+  str_ok (PDict [(KB true, PNone)]) = false /\
+  of_sj q_none ex_ct (to_sj (PDict [(KB true, PNone)])) = Err EValue /\
+  from_json q_none ex_ct (to_json (PDict [(KB true, PNone)])) = Ok (PDict [(KB true, PNone)]).
+Proof. exact bool_key_refuted. Qed.
+Print Assumptions C05_bool_key_refuted.
